@@ -255,7 +255,20 @@ fn page_string(page_id: i32) -> BoxedStrategy<String> {
     let rep: Vec<char> = cpref::repertoire(page).into_iter().filter(|c| *c != '\u{feff}' && !c.is_control()).collect();
     prop_oneof![
         3 => prop::sample::select(vec!["a", "b", "Name", "x y", "Value", "k", "T", "A", "0"]).prop_map(|s| s.to_string()),
-        2 => prop::collection::vec(prop::sample::select(rep), 1..5).prop_map(|v| v.into_iter().collect::<String>()),
+        2 => prop::collection::vec(prop::sample::select(rep.clone()), 1..5).prop_map(|v| v.into_iter().collect::<String>()),
+        // 1025..3000 characters: the encoded form crosses the block sizes
+        // readers work in, with multi-byte characters on the boundaries
+        1 => (prop::collection::vec(prop::sample::select(rep), 1..4), 1025usize..3000).prop_map(|(v, target)| {
+            let pattern: String = v.into_iter().collect();
+            let per = pattern.chars().count();
+            let mut s = String::new();
+            let mut n = 0;
+            while n < target {
+                s.push_str(&pattern);
+                n += per;
+            }
+            s
+        }),
     ]
     .boxed()
 }
